@@ -4,7 +4,9 @@ and props/not_applicable.json."""
 import os, json, importlib.util, glob
 V = os.path.dirname(os.path.dirname(os.path.abspath(__file__)))
 class Q:
-    def __init__(s, *a, **k): s.__dict__.update(k)
+    def __init__(s, *a, **k):
+        s.__dict__.update(k)
+        for n, v in zip(('name', 'harness', 'entry'), a): setattr(s, n, v)
 ids = [json.loads(l)['id'] for l in open(os.path.join(V, 'properties.jsonl'))]
 na = json.load(open(os.path.join(V, 'props', 'not_applicable.json')))
 checks = []; claimed = []
